@@ -158,6 +158,18 @@ Theorem C17_model_satisfies_oracle : forall now ks h,
 Proof. exact model_satisfies_oracle. Qed.
 Print Assumptions C17_model_satisfies_oracle.
 
+(** the same when the middleware value serves connection after connection
+    (slots in which connections begin, talk and end, in any interleaving): every
+    connection is judged from the initial state, so each limit — the quota of
+    the NIP-11 chain included — is enforced on a connection exactly as on the
+    only connection of a fresh middleware value *)
+Theorem C17_life_model_satisfies_oracle : forall now ks n h j,
+  Forall wf_k ks -> (j < n)%nat ->
+  sp_life_run now ks None (proj j h)
+              (proj j (combine (List.map fst h) (snd (lsys_run ks now (lsys_init n) h)))) = true.
+Proof. exact life_model_satisfies_oracle. Qed.
+Print Assumptions C17_life_model_satisfies_oracle.
+
 (** the hypotheses are satisfiable on non-trivial concrete data: a stack of
     three limits, one message that respects all and one that violates the
     second and the third (the second answers) *)
